@@ -42,8 +42,8 @@ CLAIMED = {
          "§5 C07", "Lean 4 proof (lock-order theorem + verified trace checker, partial) + exploration of re-entrant and concurrent scenarios with lock-order certificates"),
  "C03": ("Theorems Rx.Comb.merge_spec, amb_spec, concat_spec, zip_spec/zip_items/zip_timing, take_until_spec, skip_until_spec, sample_spec, flat_map_spec, "
          "ready_set_go_no_loss: the pure history machine of each combining operator (mirroring its closures and the StreamController) equals its ReactiveX "
-         "list characterisation for ALL well-formed histories and any number of sources. combine_latest and sequence_equal are proved NOT to be the "
-         "ReactiveX operators (combine_latest_violated, sequence_equal_violated, with partial theorems) - recorded as known findings F9/F10. "
+         "list characterisation for ALL well-formed histories and any number of sources (sequence_equal_spec since the repair of F10). combine_latest is proved NOT "
+         "to be the ReactiveX operator (combine_latest_violated, with a partial theorem) - recorded as known finding F9. "
          "REFINEMENT (C03Ref*.lean): the object machine's merge, amb, concat, take_until and zip (the call-by-call transliteration of the Rust operators over "
          "the StreamController and plain Subjects) refine their history machines for EVERY history (merge_refines, amb_refines, concat_refines, "
          "take_until_refines, zip_refines: log, status, registrations per subject), so the list specs hold of the machine (…_machine_spec); skip_until, "
@@ -78,8 +78,8 @@ CLAIMED = {
          "behavior_refines: equal logs, registrations, liveness), and the central C10 theorems are transported to the machine (machine_delivers_to_current, "
          "machine_no_observer_after_terminal/unsubscribe, machine_replay_handover, machine_behavior_handover); AsyncSubject's refinement is not proved. "
          "Tie: implementation = object machine on all cases; implementation = SubjM on directly "
-         "subscribed call sequences (exhaustive up to length 3/4 + random); observer counts against live subscriptions. AsyncSubject differs from ReactiveX "
-         "(per-subscriber buffer) - known finding F17, evaluated against a ReactiveX AsyncSubject spec on every case.",
+         "subscribed call sequences (exhaustive up to length 3/4 + random); observer counts against live subscriptions. AsyncSubject (repaired, formerly finding F17) "
+         "is additionally evaluated against a ReactiveX AsyncSubject reference on every case; async_every_subscriber / async_refines.",
          "§5 C10", "Lean 4 proof: induction over call sequences of mirrored state machines + per-run differential correspondence"),
  "C11": ("Theorems Rx.C11 (C11.lean) on lock-level LTSs: merge through the StreamController with k input threads (never_two_terminals, last_one_out, "
          "merge_prefix, merge_conserves: multiset + per-input order + one complete last), take_at_most_n, amb_one_winner, zip_tuples (multiset of the i-th "
